@@ -71,7 +71,8 @@ let of_alltables (nd : Tables.needs) (a : Dfa.alltables) : t =
         List [Atom "main"; of_tables a.Dfa.a_main];
         List (Atom "subtrans" :: List.map of_row a.Dfa.a_subtrans);
         List [Atom "csub"; of_levels a.Dfa.a_csub];
-        List (Atom "subwords" :: List.map (fun ((pi, id), t) -> List [sn pi; sn id; of_tables t]) a.Dfa.a_subwords)]
+        List (Atom "subwords" :: List.map (fun ((pi, id), t) -> List [sn pi; sn id; of_tables t]) a.Dfa.a_subwords);
+        List (Atom "subaccepting" :: List.map of_ids_row a.Dfa.a_subaccepting)]
 
 let res_to (f : 'a -> t) (r : (unit, 'a) Extracted.Prelude.outcome) : t =
   match r with
